@@ -165,6 +165,9 @@ func (r *Runner) doNew(p map[string]string) {
 	for i := 0; i < atoi(p["handles"]); i++ {
 		e.Handles = append(e.Handles, fmt.Sprintf("hd%d", i+1))
 	}
+	if hn := p["hnames"]; hn != "" {
+		e.Handles = strings.Split(hn, ",") // explicit handle names (handle id = position+1)
+	}
 	for i, ps := range strings.Split(p["pools"], ";") {
 		if ps == "" {
 			continue
